@@ -1,2 +1,621 @@
-pub fn gen(_seed: u64, _thorough: bool) -> Vec<String> { vec![] }
-pub fn run(_line: &str) -> Option<(String, Vec<String>)> { None }
+//! C08: any sequence of decoder operations stays in step with the layout.
+//!
+//! `D <kind> <w> <h> <d|-> <mips> <px> <format> <op>...`
+//! ops: r:w:h  x:ox:oy:w:h  s  m  p  0  c:w:h
+use crate::c02::{kind_parse, make_header, Kind, Px};
+use crate::common::*;
+use dds::*;
+use std::cell::RefCell;
+use std::io::{Cursor, Read, Seek, SeekFrom};
+use std::rc::Rc;
+
+#[derive(Clone)]
+struct Shared(Rc<RefCell<Cursor<Vec<u8>>>>);
+impl Read for Shared {
+    fn read(&mut self, buf: &mut [u8]) -> std::io::Result<usize> {
+        self.0.borrow_mut().read(buf)
+    }
+}
+impl Seek for Shared {
+    fn seek(&mut self, pos: SeekFrom) -> std::io::Result<u64> {
+        self.0.borrow_mut().seek(pos)
+    }
+}
+
+const FORMATS: &[(&str, Format, Px)] = &[
+    ("R8_UNORM", Format::R8_UNORM, Px::F(1)),
+    ("BC1_UNORM", Format::BC1_UNORM, Px::B(8, 4, 4)),
+    ("NV12", Format::NV12, Px::P(1, 2, 2, 2)),
+    ("R8G8_B8G8_UNORM", Format::R8G8_B8G8_UNORM, Px::B(4, 2, 1)),
+    ("R8G8B8A8_UNORM", Format::R8G8B8A8_UNORM, Px::F(4)),
+    ("BC3_UNORM", Format::BC3_UNORM, Px::B(16, 4, 4)),
+];
+
+fn format_by_name(n: &str) -> Option<(Format, Px)> {
+    FORMATS.iter().find(|f| f.0 == n).map(|f| (f.1, f.2))
+}
+
+// ---------------------------------------------------------------------------
+// the specification: a simple cursor over the flattened surface list
+#[derive(Clone, Debug)]
+struct SpecSurf {
+    w: u32,
+    h: u32,
+    len: u64,
+    off: u64,
+    elem: u64,
+    level: u32,
+    slice: u32,
+}
+struct Spec {
+    flat: Vec<SpecSurf>,
+    total: u64,
+    is_volume: bool,
+    mips: u32,
+    faces: Option<u32>,
+    face_size: (u32, u32),
+}
+fn mip(d: u32, l: u32) -> u32 {
+    if l >= 32 {
+        1
+    } else {
+        (d >> l).max(1)
+    }
+}
+fn build_spec(kind: &Kind, w: u32, h: u32, d: Option<u32>, mips: u32, px: Px) -> Spec {
+    let (n_elem, is_volume, faces, h): (u64, bool, Option<u32>, u32) = match kind {
+        Kind::Dx10 { cube: true, array, .. } => (*array as u64 * 6, false, Some(63), h),
+        Kind::Dx10 { dim: 3, .. } => (1, true, None, h),
+        Kind::Dx10 { dim: 1, array, .. } => (*array as u64, false, None, 1),
+        Kind::Dx10 { array, .. } => (*array as u64, false, None, h),
+        Kind::Dx9 { caps2 } => {
+            if caps2 & 0x200 != 0 {
+                let f = (caps2 >> 10) & 63;
+                (f.count_ones() as u64, false, Some(f), h)
+            } else if caps2 & 0x200000 != 0 {
+                (1, true, None, h)
+            } else {
+                (1, false, None, h)
+            }
+        }
+    };
+    let mut flat = vec![];
+    let mut off = 0u64;
+    if is_volume {
+        let d0 = d.unwrap_or(1);
+        for l in 0..mips {
+            let (mw, mh, md) = (mip(w, l), mip(h, l), mip(d0, l));
+            let len = px.ideal(mw as u128, mh as u128) as u64;
+            for k in 0..md {
+                flat.push(SpecSurf { w: mw, h: mh, len, off, elem: 0, level: l, slice: k });
+                off += len;
+            }
+        }
+    } else {
+        for e in 0..n_elem {
+            for l in 0..mips {
+                let (mw, mh) = (mip(w, l), mip(h, l));
+                let len = px.ideal(mw as u128, mh as u128) as u64;
+                flat.push(SpecSurf { w: mw, h: mh, len, off, elem: e, level: l, slice: 0 });
+                off += len;
+            }
+        }
+    }
+    // a plain (non-cube) texture array is not a cube map; a single texture neither
+    let faces = match kind {
+        Kind::Dx10 { cube: true, .. } => faces,
+        Kind::Dx9 { caps2 } if caps2 & 0x200 != 0 => faces,
+        _ => None,
+    };
+    Spec { flat, total: off, is_volume, mips, faces, face_size: (w, h) }
+}
+
+const FACE_CELLS: [(u32, u32, u32); 6] = [(1, 2, 1), (2, 0, 1), (4, 1, 0), (8, 1, 2), (16, 1, 1), (32, 3, 1)];
+
+impl Spec {
+    fn pos(&self, k: usize) -> u64 {
+        if k < self.flat.len() {
+            self.flat[k].off
+        } else {
+            self.total
+        }
+    }
+    /// (result name, new cursor, cells)
+    fn step(&self, k: usize, op: &Op) -> (String, usize, Vec<(u32, u32)>) {
+        let n = self.flat.len();
+        let norm = |w: u32, h: u32| if w == 0 || h == 0 { (0, 0) } else { (w, h) };
+        match op {
+            Op::Read(w, h) => {
+                if k >= n {
+                    return ("NoMoreSurfaces".into(), k, vec![]);
+                }
+                if norm(*w, *h) != (self.flat[k].w, self.flat[k].h) {
+                    return ("UnexpectedSurfaceSize".into(), k, vec![]);
+                }
+                ("ok".into(), k + 1, vec![])
+            }
+            Op::Rect(ox, oy, w, h) => {
+                if k >= n {
+                    return ("NoMoreSurfaces".into(), k, vec![]);
+                }
+                let (w, h) = norm(*w, *h);
+                let s = &self.flat[k];
+                if *ox as u64 + w as u64 > s.w as u64 || *oy as u64 + h as u64 > s.h as u64 {
+                    return ("RectOutOfBounds".into(), k, vec![]);
+                }
+                ("ok".into(), k + 1, vec![])
+            }
+            Op::Skip => {
+                if k >= n {
+                    ("NoMoreSurfaces".into(), k, vec![])
+                } else {
+                    ("ok".into(), k + 1, vec![])
+                }
+            }
+            Op::SkipMips => {
+                if k >= n {
+                    return ("ok".into(), k, vec![]);
+                }
+                let s = &self.flat[k];
+                if self.is_volume {
+                    if s.slice != 0 {
+                        return ("CannotSkipMipmapsInVolume".into(), k, vec![]);
+                    }
+                    if s.level == 0 {
+                        return ("ok".into(), k, vec![]);
+                    }
+                    ("ok".into(), n, vec![])
+                } else if s.level == 0 {
+                    ("ok".into(), k, vec![])
+                } else {
+                    ("ok".into(), ((s.elem + 1) * self.mips as u64) as usize, vec![])
+                }
+            }
+            Op::Prev => ("ok".into(), k.saturating_sub(1), vec![]),
+            Op::Start => ("ok".into(), 0, vec![]),
+            Op::Cube(w, h) => {
+                let faces = match self.faces {
+                    None => return ("NotACubeMap".into(), k, vec![]),
+                    Some(f) => f,
+                };
+                let (fw, fh) = self.face_size;
+                let iw = (fw as u64) * 4;
+                let ih = (fh as u64) * 3;
+                let (w, h) = norm(*w, *h);
+                if iw != w as u64 || ih != h as u64 || iw > u32::MAX as u64 || ih > u32::MAX as u64 {
+                    return ("UnexpectedSurfaceSize".into(), k, vec![]);
+                }
+                let mut k = k;
+                let mut cells = vec![];
+                for (bit, x, y) in FACE_CELLS {
+                    if faces & bit == 0 {
+                        continue;
+                    }
+                    if k >= n {
+                        return ("NoMoreSurfaces".into(), k, cells);
+                    }
+                    if (self.flat[k].w, self.flat[k].h) != (fw, fh) {
+                        return ("UnexpectedSurfaceSize".into(), k, cells);
+                    }
+                    cells.push((x, y));
+                    // read one surface, then skip the remaining mip levels of that element
+                    let nk = k + 1;
+                    k = if nk < n && self.flat[nk].level != 0 {
+                        ((self.flat[nk].elem + 1) * self.mips as u64) as usize
+                    } else {
+                        nk
+                    };
+                }
+                ("ok".into(), k, cells)
+            }
+        }
+    }
+    fn info(&self, k: usize) -> String {
+        if k < self.flat.len() {
+            let s = &self.flat[k];
+            format!("{},{},{},{} more", s.w, s.h, s.len, (s.level != 0) as u8)
+        } else {
+            "- done".into()
+        }
+    }
+}
+
+#[derive(Clone, Debug)]
+enum Op {
+    Read(u32, u32),
+    Rect(u32, u32, u32, u32),
+    Skip,
+    SkipMips,
+    Prev,
+    Start,
+    Cube(u32, u32),
+}
+impl Op {
+    fn fmt(&self) -> String {
+        match self {
+            Op::Read(w, h) => format!("r:{w}:{h}"),
+            Op::Rect(a, b, c, d) => format!("x:{a}:{b}:{c}:{d}"),
+            Op::Skip => "s".into(),
+            Op::SkipMips => "m".into(),
+            Op::Prev => "p".into(),
+            Op::Start => "0".into(),
+            Op::Cube(w, h) => format!("c:{w}:{h}"),
+        }
+    }
+    fn parse(s: &str) -> Option<Op> {
+        let p: Vec<&str> = s.split(':').collect();
+        let n = |i: usize| -> Option<u32> { p.get(i)?.parse().ok() };
+        Some(match p[0] {
+            "r" => Op::Read(n(1)?, n(2)?),
+            "x" => Op::Rect(n(1)?, n(2)?, n(3)?, n(4)?),
+            "s" => Op::Skip,
+            "m" => Op::SkipMips,
+            "p" => Op::Prev,
+            "0" => Op::Start,
+            "c" => Op::Cube(n(1)?, n(2)?),
+            _ => return None,
+        })
+    }
+}
+
+struct LayoutSpec {
+    kind: Kind,
+    w: u32,
+    h: u32,
+    d: Option<u32>,
+    mips: u32,
+}
+
+fn layouts(rng: &mut Rng) -> Vec<LayoutSpec> {
+    let mut v = vec![];
+    let tex = Kind::Dx9 { caps2: 0 };
+    let mut push = |kind: Kind, w, h, d, mips| v.push(LayoutSpec { kind, w, h, d, mips });
+    push(tex.clone(), 5, 3, None, 1);
+    push(tex.clone(), 5, 3, None, 3);
+    push(tex.clone(), 8, 4, None, 4);
+    push(tex.clone(), 1, 1, None, 1);
+    push(tex.clone(), 2, 2, None, 5);
+    push(Kind::Dx10 { cube: false, dim: 2, array: 0 }, 4, 4, None, 2);
+    push(Kind::Dx10 { cube: false, dim: 2, array: 1 }, 4, 6, None, 3);
+    push(Kind::Dx10 { cube: false, dim: 2, array: 3 }, 6, 4, None, 1);
+    push(Kind::Dx10 { cube: false, dim: 2, array: 3 }, 6, 4, None, 3);
+    push(Kind::Dx10 { cube: false, dim: 1, array: 1 }, 9, 7, None, 2);
+    push(Kind::Dx10 { cube: false, dim: 1, array: 2 }, 4, 1, None, 3);
+    push(Kind::Dx10 { cube: true, dim: 2, array: 1 }, 4, 4, None, 1);
+    push(Kind::Dx10 { cube: true, dim: 2, array: 1 }, 4, 2, None, 3);
+    push(Kind::Dx10 { cube: true, dim: 2, array: 2 }, 2, 2, None, 2);
+    push(Kind::Dx10 { cube: true, dim: 2, array: 0 }, 2, 2, None, 1);
+    push(Kind::Dx9 { caps2: 0x200 | (63 << 10) }, 2, 4, None, 2);
+    push(Kind::Dx9 { caps2: 0x200000 }, 4, 4, Some(1), 1);
+    push(Kind::Dx9 { caps2: 0x200000 }, 4, 4, Some(3), 1);
+    push(Kind::Dx9 { caps2: 0x200000 }, 4, 2, Some(5), 3);
+    push(Kind::Dx10 { cube: false, dim: 3, array: 1 }, 3, 5, Some(4), 4);
+    push(Kind::Dx10 { cube: false, dim: 3, array: 1 }, 2, 2, Some(2), 2);
+    for faces in 0..64u32 {
+        let mips = 1 + (faces % 3);
+        let (w, h) = *rng.pick(&[(2u32, 2u32), (4, 2), (1, 1), (3, 5), (4, 4)]);
+        push(Kind::Dx9 { caps2: 0x200 | (faces << 10) }, w, h, None, mips);
+    }
+    v
+}
+
+fn valid_variants(spec: &Spec, k: usize, rng: &mut Rng, with_errors: bool) -> Vec<Op> {
+    // the 7 operation kinds with parameters that are valid in the current state
+    let (cw, ch) = if k < spec.flat.len() { (spec.flat[k].w, spec.flat[k].h) } else { (1, 1) };
+    let mut ops = vec![Op::Read(cw, ch)];
+    let rw = rng.range(1, cw as u64) as u32;
+    let rh = rng.range(1, ch as u64) as u32;
+    let ox = rng.below((cw - rw + 1) as u64) as u32;
+    let oy = rng.below((ch - rh + 1) as u64) as u32;
+    ops.push(Op::Rect(ox, oy, rw, rh));
+    ops.push(Op::Skip);
+    ops.push(Op::SkipMips);
+    ops.push(Op::Prev);
+    ops.push(Op::Start);
+    let (fw, fh) = spec.face_size;
+    ops.push(Op::Cube(fw.saturating_mul(4), fh.saturating_mul(3)));
+    if with_errors {
+        ops.push(Op::Read(cw + 1, ch));
+        ops.push(Op::Read(ch.wrapping_add(7), cw));
+        ops.push(Op::Read(0, ch));
+        ops.push(Op::Rect(ox + 1, oy, cw - ox, rh));
+        ops.push(Op::Rect(ox, oy, 0, rh));
+        ops.push(Op::Rect(cw, ch, 0, 0));
+        ops.push(Op::Rect(cw + 1, 0, 0, 0));
+        ops.push(Op::Rect(u32::MAX, 0, 2, 1));
+        ops.push(Op::Cube(fw * 4, fh * 3 + 1));
+        ops.push(Op::Cube(fw, fh));
+    }
+    ops
+}
+
+pub fn gen(seed: u64, thorough: bool) -> Vec<String> {
+    let mut rng = Rng::new(seed);
+    let mut out = vec![];
+    let ls = layouts(&mut rng);
+    let depth = if thorough { 5 } else { 3 };
+    for (li, l) in ls.iter().enumerate() {
+        // exhaustive trees on two formats per layout, rotating
+        for fi in 0..2 {
+            let (fname, _, px) = FORMATS[(li + fi * 3) % FORMATS.len()];
+            if li >= 21 && fi == 1 && !thorough {
+                continue;
+            }
+            let spec = build_spec(&l.kind, l.w, l.h, l.d, l.mips, px);
+            let head = format!(
+                "D {} {} {} {} {} {} {}",
+                match &l.kind {
+                    Kind::Dx10 { cube, dim, array } => format!("x:{}:{}:{}", *cube as u8, dim, array),
+                    Kind::Dx9 { caps2 } => format!("n:{caps2}"),
+                },
+                l.w,
+                l.h,
+                l.d.map(|x| x.to_string()).unwrap_or("-".into()),
+                l.mips,
+                px.fmt(),
+                fname
+            );
+            // exhaustive over the 7 kinds to `depth` (only for the first 21 layouts), else depth 2
+            let dmax = if li < 21 { depth } else { 2 };
+            let mut stack: Vec<(usize, Vec<Op>)> = vec![(0, vec![])];
+            while let Some((k, seq)) = stack.pop() {
+                if seq.len() == dmax {
+                    out.push(format!("{} {}", head, seq.iter().map(|o| o.fmt()).collect::<Vec<_>>().join(" ")));
+                    continue;
+                }
+                for op in valid_variants(&spec, k, &mut rng, false) {
+                    let (_, nk, _) = spec.step(k, &op);
+                    let mut s2 = seq.clone();
+                    s2.push(op);
+                    stack.push((nk, s2));
+                }
+            }
+            // random deeper sequences with error variants
+            let nrand = if thorough { 400 } else { 60 };
+            for _ in 0..nrand {
+                let len = rng.range(4, 40) as usize;
+                let mut k = 0usize;
+                let mut seq = vec![];
+                for _ in 0..len {
+                    let vs = valid_variants(&spec, k, &mut rng, true);
+                    // bias towards forward motion so that the end is reached
+                    let op = if rng.chance(1, 3) { vs[rng.below(3) as usize].clone() } else { rng.pick(&vs).clone() };
+                    let (_, nk, _) = spec.step(k, &op);
+                    k = nk;
+                    seq.push(op);
+                }
+                out.push(format!("{} {}", head, seq.iter().map(|o| o.fmt()).collect::<Vec<_>>().join(" ")));
+            }
+        }
+    }
+    out
+}
+
+fn err_name(e: &DecodingError) -> String {
+    match e {
+        DecodingError::RectOutOfBounds => "RectOutOfBounds".into(),
+        DecodingError::UnexpectedSurfaceSize => "UnexpectedSurfaceSize".into(),
+        DecodingError::CannotSkipMipmapsInVolume => "CannotSkipMipmapsInVolume".into(),
+        DecodingError::NoMoreSurfaces => "NoMoreSurfaces".into(),
+        DecodingError::NotACubeMap => "NotACubeMap".into(),
+        DecodingError::MemoryLimitExceeded => "MemoryLimitExceeded".into(),
+        DecodingError::Layout(e) => format!("err {}", crate::c02::err_name(e)),
+        DecodingError::Io(_) => "Io".into(),
+        _ => "Other".into(),
+    }
+}
+
+pub fn run(line: &str) -> Option<(String, Vec<String>)> {
+    let t = toks(line);
+    if t.len() < 8 || t[0] != "D" {
+        return None;
+    }
+    let kind = kind_parse(t[1])?;
+    let w = p_u32(t[2])?;
+    let h = p_u32(t[3])?;
+    let d = if t[4] == "-" { None } else { Some(p_u32(t[4])?) };
+    let mips = p_u32(t[5])?;
+    let px = Px::parse(t[6])?;
+    let (format, fpx) = format_by_name(t[7])?;
+    if fpx != px {
+        return None;
+    }
+    let mut ops = vec![];
+    for o in &t[8..] {
+        ops.push(Op::parse(o)?);
+    }
+    let header = make_header(&kind, w, h, d, mips)?;
+    let mut oracle = vec![];
+
+    // data: the byte at offset i is a function of i, so that every surface is recognisable
+    let layout = match DataLayout::from_header_with(&header, px.to_info()) {
+        Ok(l) => l,
+        Err(e) => return Some((format!("err {}", crate::c02::err_name(&e)), oracle)),
+    };
+    let total = layout.data_len();
+    if total > (1 << 22) {
+        return Some(("too-big".into(), oracle));
+    }
+    let data: Vec<u8> = (0..total).map(|i| ((i * 131 + (i >> 8) * 17 + 5) & 0xFF) as u8).collect();
+    let shared = Shared(Rc::new(RefCell::new(Cursor::new(data.clone()))));
+    let mut dec = match Decoder::from_header_with(shared.clone(), header.clone(), format) {
+        Ok(d) => d,
+        Err(e) => return Some((err_name(&e), oracle)),
+    };
+    let color = dec.native_color();
+    let bpp = color.bytes_per_pixel() as usize;
+    let spec = build_spec(&kind, w, h, d, mips, px);
+    let mut k = 0usize;
+
+    let info = |dec: &Decoder<Shared>| -> String {
+        match dec.surface_info() {
+            Some(s) => format!(
+                "{},{},{},{} {}",
+                s.size().width,
+                s.size().height,
+                s.data_len(),
+                s.is_mipmap() as u8,
+                if dec.is_done() { "done" } else { "more" }
+            ),
+            None => format!("- {}", if dec.is_done() { "done" } else { "more" }),
+        }
+    };
+    let pos = |sh: &Shared| -> u64 { sh.0.borrow().position() };
+
+    let mut parts = vec![format!("new {} {}", info(&dec), pos(&shared))];
+    if info(&dec) != spec.info(0) || pos(&shared) != 0 {
+        oracle.push("initial state differs from the spec cursor".into());
+    }
+    for (i, op) in ops.iter().enumerate() {
+        let mut cells_s = String::new();
+        let before_pos = pos(&shared);
+        let before_info = info(&dec);
+        let res: Result<(), DecodingError> = match op {
+            Op::Read(w, h) => {
+                let mut buf = vec![0xAAu8; *w as usize * *h as usize * bpp];
+                match ImageViewMut::new(&mut buf, Size::new(*w, *h), color) {
+                    Some(view) => {
+                        let r = dec.read_surface(view);
+                        if r.is_ok() && k < spec.flat.len() {
+                            // content check: equals a stand-alone decode of the surface's bytes
+                            let s = &spec.flat[k];
+                            let mut exp = vec![0x55u8; buf.len()];
+                            let mut cur = Cursor::new(&data[s.off as usize..(s.off + s.len) as usize]);
+                            let v2 = ImageViewMut::new(&mut exp, Size::new(*w, *h), color).unwrap();
+                            if decode(&mut cur, v2, format, &DecodeOptions::default()).is_err() || exp != buf {
+                                oracle.push(format!("op {i}: read_surface content differs from the surface's own bytes"));
+                            }
+                        }
+                        r
+                    }
+                    None => return None,
+                }
+            }
+            Op::Rect(ox, oy, w, h) => {
+                let mut buf = vec![0xAAu8; *w as usize * *h as usize * bpp];
+                match ImageViewMut::new(&mut buf, Size::new(*w, *h), color) {
+                    Some(view) => dec.read_surface_rect(view, Offset::new(*ox, *oy)),
+                    None => return None,
+                }
+            }
+            Op::Skip => dec.skip_surface(),
+            Op::SkipMips => dec.skip_mipmaps(),
+            Op::Prev => dec.rewind_to_previous_surface(),
+            Op::Start => dec.rewind_to_start(),
+            Op::Cube(w, h) => {
+                let n = *w as usize * *h as usize * bpp;
+                if n > (1 << 24) {
+                    return None;
+                }
+                let (_, _, exp_cells) = spec.step(k, op);
+                let (fw, fh) = spec.face_size;
+                let geometry_ok = *w as u64 == fw as u64 * 4 && *h as u64 == fh as u64 * 3;
+                // expected content of each expected cell = stand-alone decode of the surface the spec cursor reads
+                let mut exp_faces: Vec<Vec<u8>> = vec![];
+                if geometry_ok {
+                    let mut kk = k;
+                    for _ in &exp_cells {
+                        if kk >= spec.flat.len() {
+                            break;
+                        }
+                        let s = spec.flat[kk].clone();
+                        let mut exp = vec![0u8; fw as usize * fh as usize * bpp];
+                        let mut cur = Cursor::new(&data[s.off as usize..(s.off + s.len) as usize]);
+                        let v2 = ImageViewMut::new(&mut exp, Size::new(fw, fh), color).unwrap();
+                        let _ = decode(&mut cur, v2, format, &DecodeOptions::default());
+                        exp_faces.push(exp);
+                        let nk = kk + 1;
+                        kk = if nk < spec.flat.len() && spec.flat[nk].level != 0 {
+                            ((spec.flat[nk].elem + 1) * spec.mips as u64) as usize
+                        } else {
+                            nk
+                        };
+                    }
+                }
+                // a prefill value that occurs in no expected face, so that "untouched" is decidable
+                let mut used = [false; 256];
+                for f in &exp_faces {
+                    for b in f {
+                        used[*b as usize] = true;
+                    }
+                }
+                let prefill = (0..256usize).rev().find(|v| !used[*v]).map(|v| v as u8);
+                let pf = prefill.unwrap_or(0xAA);
+                let mut buf = vec![pf; n];
+                let r = match ImageViewMut::new(&mut buf, Size::new(*w, *h), color) {
+                    Some(view) => dec.read_cube_map(view),
+                    None => return None,
+                };
+                let mut cells_ok = true;
+                if geometry_ok {
+                    let pitch = *w as usize * bpp;
+                    let rowb = fw as usize * bpp;
+                    for cy in 0..3u32 {
+                        for cx in 0..4u32 {
+                            let idx = exp_cells.iter().position(|c| *c == (cx, cy));
+                            for y in 0..fh as usize {
+                                let st = (cy as usize * fh as usize + y) * pitch + cx as usize * rowb;
+                                let got = &buf[st..st + rowb];
+                                match idx {
+                                    Some(fi) if fi < exp_faces.len() => {
+                                        if got != &exp_faces[fi][y * rowb..(y + 1) * rowb] {
+                                            oracle.push(format!(
+                                                "op {i}: cube cell {cx}.{cy} differs from reading the face on its own"
+                                            ));
+                                            cells_ok = false;
+                                            break;
+                                        }
+                                    }
+                                    _ => {
+                                        if prefill.is_some() && got.iter().any(|b| *b != pf) {
+                                            oracle.push(format!(
+                                                "op {i}: cube cell {cx}.{cy} was written but holds no face"
+                                            ));
+                                            cells_ok = false;
+                                            break;
+                                        }
+                                    }
+                                }
+                            }
+                        }
+                    }
+                }
+                if !exp_cells.is_empty() {
+                    cells_s = if cells_ok {
+                        format!(
+                            " cells={}",
+                            exp_cells.iter().map(|(x, y)| format!("{x}.{y}")).collect::<Vec<_>>().join(",")
+                        )
+                    } else {
+                        " cells=MISMATCH".to_string()
+                    };
+                }
+                r
+            }
+        };
+        let rname = match &res {
+            Ok(()) => "ok".to_string(),
+            Err(e) => err_name(e),
+        };
+        // ---- oracle: the spec cursor
+        let (sres, nk, _) = spec.step(k, op);
+        if sres != rname {
+            oracle.push(format!("op {i} {}: result {rname}, spec cursor says {sres}", op.fmt()));
+        }
+        k = nk;
+        if info(&dec) != spec.info(k) {
+            oracle.push(format!("op {i} {}: next surface '{}', spec cursor '{}'", op.fmt(), info(&dec), spec.info(k)));
+        }
+        if pos(&shared) != spec.pos(k) {
+            oracle.push(format!("op {i} {}: position {}, spec cursor {}", op.fmt(), pos(&shared), spec.pos(k)));
+        }
+        if res.is_err() && !matches!(op, Op::Cube(..)) && (pos(&shared) != before_pos || info(&dec) != before_info) {
+            oracle.push(format!("op {i} {}: rejected call moved the decoder", op.fmt()));
+        }
+        parts.push(format!("{} {} {}{}", rname, info(&dec), pos(&shared), cells_s));
+        if oracle.len() > 4 {
+            break;
+        }
+    }
+    Some((parts.join(" | "), oracle))
+}
